@@ -14,8 +14,30 @@ ASSUMPTIONS = ["the registry is a pure function value -> list of hits (Section v
                "assume wf_search: every reported hit is non-empty and in bounds (the C06 precondition)"]
 
 
+def whole_scan_depths(ctx):
+    """shipped registry: depth limits visited in a non-monotone order on one scanner; tree(k) must be a truncation of tree(k+1)"""
+    from common import node_val
+    from engine_common import tree_le
+    from multidecoder.multidecoder import Multidecoder
+    md = Multidecoder()
+    inputs = [b"get http://example.com/dl?x=aGVsbG8gd29ybGQgaGVsbG8gd29ybGQgaGVsbG8gd29ybGQ= now",
+              b'x = atob("aHR0cDovL2EuY29tL3A/cT1hR1ZzYkc4Z2QyOXliR1FnYUdWc2JHOGdkMjl5YkdRZ2FHVnNiRzg9")',
+              b'"he" + "llo" & reverse("dlrow") cmd /c p^ing 10.1.2.3']
+    for d in inputs:
+        trees = {}
+        for k in [2, 6, 1, 0, -1, 4, 3, 5, 7]:
+            trees[k] = node_val(md.scan(d, k))
+            ctx.evals += 1
+        for k in range(-1, 7):
+            if not tree_le(trees[k], trees[k + 1]):
+                ctx.violation("whole_scan_depth", [d, k], f"default registry: tree for depth {k} is not a truncation of the tree for depth {k + 1}")
+        if trees[0] != ["", d, "", 0, len(d), []] or trees[-1] != trees[0]:
+            ctx.violation("whole_scan_depth", [d, 0], "depth <= 0 must return the bare root")
+
+
 def run(ctx):
     run_engine(ctx, ORACLES)
+    whole_scan_depths(ctx)
 
 
 def search(ctx):
